@@ -30,8 +30,8 @@ void h_wl_nonempty(void) {
         memcpy(sig.data, e0, 32);
     }
 #else
-    g_el_i = 0; g_el_k = 0; g_bv_n = 0; g_ck_n = 0;
-    g_bv_e0_expect = &sig.data[0]; g_ck_online_expect = online; g_ck_offline_expect = offline; g_ck_sub_expect = &sub;
+    g_el_i = 0; g_el_k = 0; g_el_b = 0; g_bv_n = 0; g_ck_n = 0;
+    g_ck_online_expect = online; g_ck_offline_expect = offline;
 #endif
     ret = secp256k1_whitelist_verify(&ctx, &sig, online, offline, n_keys, &sub);
     __CPROVER_assert(!(ret == 1) || n_keys >= 1, "C16 whitelist_verify.nonempty: ret = 1 implies n_keys >= 1");
